@@ -36,7 +36,7 @@ FM = ["B", "H", "I", "Q", "b", "h", "i", "q"]
 
 def plan(tier, seed):
     if tier == "quick":
-        return [dict(seed=seed, shard=i, nh=12, nd=25) for i in range(16)]
+        return [dict(seed=seed, shard=i, nh=50, nd=100) for i in range(16)]
     return [dict(seed=seed, shard=i, nh=150, nd=300) for i in range(32)]
 
 
